@@ -131,6 +131,10 @@ pub struct Side {
     /// How often a passively opened endpoint was reset back to LISTEN. Every incarnation
     /// chooses a fresh initial sequence number (as a real stack does) and starts a new stream.
     pub incarnation: u8,
+    /// Set when the peer was reset back to LISTEN while this side was synchronised with the
+    /// incarnation that was reset: what that incarnation had written is all this side can
+    /// ever be owed (it never reopens), whatever later incarnations of the peer write.
+    pub owed_override: Option<Vec<u8>>,
 }
 
 impl Side {
@@ -151,6 +155,7 @@ impl Side {
             close_ok: false,
             unseg_at_close: 0,
             incarnation: 0,
+            owed_override: None,
             life,
         }
     }
@@ -396,6 +401,7 @@ impl Sys {
                     SegmentArrivesResult::Close => {
                         // the session stops without another segments() call
                         info.released = true;
+                        let old_iss = self.side[s].snap().map(|x| x.iss);
                         self.release(s, "segment_arrives");
                         if self.side[s].passive && info.before == Some(State::SynReceived) {
                             // RFC 9293 figure 5, note 1: a reset in SYN-RECEIVED returns a
@@ -406,6 +412,13 @@ impl Sys {
                             // a new incarnation: what the reset connection had written is
                             // legitimately gone and is not owed to anybody
                             self.side[s].incarnation += 1;
+                            // a peer that is synchronised with the incarnation just reset stays
+                            // attached to it: it is owed that incarnation's stream and no more
+                            if let (Some(psn), Some(iss)) = (self.side[1 - s].snap(), old_iss) {
+                                if psn.irs == iss && psn.state != State::SynSent && self.side[1 - s].owed_override.is_none() {
+                                    self.side[1 - s].owed_override = Some(self.side[s].written.clone());
+                                }
+                            }
                             self.side[s].written.clear();
                             self.side[s].written_at_close = None;
                             self.side[s].unseg_at_close = 0;
@@ -590,10 +603,11 @@ impl Sys {
             let side = &self.side[s];
             let _ = write!(
                 out,
-                "|{:?} {:?} w{} r{:?} wd{} t{} s{} c{}{} f{} rst{}{}",
+                "|{:?} {:?} w{}o{:?} r{:?} wd{} t{} s{} c{}{} f{} rst{}{}",
                 side.life,
                 side.tcb,
                 side.written.len(),
+                side.owed_override.as_ref().map(|o| o.len()),
                 side.read,
                 side.writes_done,
                 side.ticks_done,
@@ -637,7 +651,7 @@ impl Sys {
                         sn.unsegmentized,
                         sn.retransmit_len,
                         side.read.len(),
-                        self.side[1 - s].written.len()
+                        self.owed(s).len()
                     );
                 }
                 None => {
@@ -660,11 +674,17 @@ impl Sys {
         out
     }
 
+    /// The byte stream side `s` is owed: what its peer has written, or - if the peer was reset
+    /// while `s` was synchronised with it - what that incarnation had written.
+    pub fn owed(&self, s: usize) -> &Vec<u8> {
+        self.side[s].owed_override.as_ref().unwrap_or(&self.side[1 - s].written)
+    }
+
     /// (O1) bytes read on each side are a prefix of the bytes written on the other.
     pub fn prefix_violation(&self) -> Option<Violation> {
         for s in [A, B] {
             let r = &self.side[s].read;
-            let w = &self.side[1 - s].written;
+            let w = self.owed(s);
             if r.len() > w.len() || r[..] != w[..r.len()] {
                 let kind = classify_stream(r, w);
                 return Some(Violation::new(
@@ -747,7 +767,7 @@ impl Sys {
     /// Everything written has been read, everything sent is acknowledged, nothing is queued.
     pub fn settled(&self) -> bool {
         for s in [A, B] {
-            if self.side[s].read != self.side[1 - s].written {
+            if &self.side[s].read != self.owed(s) {
                 return false;
             }
             match self.side[s].snap() {
@@ -790,7 +810,7 @@ impl Sys {
     fn unsettled_reason(&self) -> (String, String) {
         for s in [A, B] {
             let r = &self.side[s].read;
-            let w = &self.side[1 - s].written;
+            let w = self.owed(s);
             if r != w {
                 let kind = if matches!(self.side[s].life, Life::Released(_))
                     || matches!(self.side[1 - s].life, Life::Released(_))
